@@ -12,9 +12,8 @@ From GH Require Import Base.Prelude Model.Verify Proofs.VerifyP Model.SyncHead P
     state: the heights of the heads returned with a nil error never decrease
     (and none is below the local head the history started from).  "Sequential"
     means that no two API calls (Head, gossip verifier) overlap: each event is a
-    call that has returned before the next one starts.  The sync loop alone cannot
-    open the window of finding F19 inside one such call (it only syncs up to a
-    target below the header being set), so setLocalHead is atomic here. *)
+    call that has returned before the next one starts (overlapping calls, with
+    setLocalHead split in two, are covered by C19_monotone). *)
 Theorem C19_monotone_seq : forall p tv (s : sstate) (history : list sev),
   nondecr_from (L s) (ok_heights (snd (srun p tv s history))).
 Proof. intros. apply srun_monotone. Qed.
@@ -103,45 +102,31 @@ Theorem C19_reinit_unverified_returns_expired : forall p tv (s : sstate) (i : hi
   head_seq p tv s i = HOut s (ROk sbj) [None].
 Proof. exact reinit_unverified_returns_old. Qed.
 
-(** *** Monotonicity for concurrent callers, real-time order.
-    FULL STATEMENT (false of the current code, see C19_monotone_refuted): for every
-    schedule of the machine [prun] - threads are Head() calls whose atomic actions
-    interleave freely with each other, with clock advances, gossip heads and
-    sync-loop progress, and in which setLocalHead's two halves (store.Append +
-    comparison with the store head; pending.Add) may be separated by other actions -
-    if call a returned va in the first part of a run and thread b is not inside a
-    call when that part ends, then b's later successful results are >= va.
-
-    PARTIAL (proved): the statement holds for every schedule in which no
-    setLocalHead is split ([PEv] events only, i.e. every schedule of the thread
-    machine [crun]): what is missing is exactly the window between setLocalHead's
-    "already synced?" comparison and pending.Add. *)
-Theorem C19_monotone_partial : forall p tv (s : sstate) (sched1 sched2 : list cev)
-    (c1 : cstate) (t1 : list obs) (c2 : cstate) (t2 : list obs) (a b : nat) (va vb : hdr),
-  crun p tv (cinit s) sched1 = (c1, t1) -> crun p tv c1 sched2 = (c2, t2) ->
-  In (ORet a (ROk va)) t1 -> c_pc c1 b = PIdle -> In (ORet b (ROk vb)) t2 ->
+(** *** Monotonicity for concurrent callers, real-time order, for EVERY schedule.
+    The machine [prun]: threads are Head() calls whose atomic actions (reads of the
+    local head, the single-flight mutex, incomingMu) interleave freely with each
+    other, with clock advances, gossip heads and sync-loop progress, and the two
+    halves of setLocalHead - store.Append + comparison with the store head, and
+    pending.Add, which the code runs under no common lock - may be separated by
+    any other actions (gossip verifier: PGossipA/B; networkHead: PHeadA/B).
+    If call a returned va in the first part of a run and thread b is not inside a
+    call when that part ends (so whatever b returns later belongs to a call that
+    STARTED after a returned), then b's later successful results are >= va.
+    (This was false before /repo dd38a4c - finding F19: a late pending.Add put a
+    header below the store head in front; localHead is now the higher of the two.) *)
+Theorem C19_monotone : forall p tv (s : sstate) (sched1 sched2 : list pev)
+    (p1 : pstate) (t1 : list obs) (p2 : pstate) (t2 : list obs) (a b : nat) (va vb : hdr),
+  prun p tv (pinit s) sched1 = (p1, t1) -> prun p tv p1 sched2 = (p2, t2) ->
+  In (ORet a (ROk va)) t1 -> c_pc (p_c p1) b = PIdle -> In (ORet b (ROk vb)) t2 ->
   h_height va <= h_height vb.
-Proof. exact monotone_conc. Qed.
+Proof. exact monotone_full. Qed.
 
-(** [crun] is [prun] restricted to schedules that never split setLocalHead *)
+(** the thread machine [crun] of the other theorems is [prun] restricted to schedules
+    that never split setLocalHead *)
 Theorem C19_atomic_schedules_are_crun : forall p tv (sched : list cev) (c : cstate),
   prun p tv (PState c None []) (map PEv sched) =
   let '(c', tr) := crun p tv c sched in (PState c' None [], tr).
 Proof. exact prun_atomic. Qed.
-
-(** REFUTED in full (finding F19): a gossip head 19 parks between the two halves of
-    setLocalHead; caller 1 learns 20; the sync loop stores 18..20 and empties
-    pending; caller 2 returns 20; the parked call resumes and pending.Add(19) makes
-    19 the local head; caller 3, started after caller 2 returned, returns 19.
-    Since /repo 77026ec the next run of sync() drops the stale entry (the local
-    head is 20 again, Example ex_f19_recovers), so the regression lasts until the
-    sync loop, woken by the same setLocalHead, has run - not forever as before. *)
-Theorem C19_monotone_refuted :
-  exists p tv s sched1 sched2 p1 t1 p2 t2 a b va vb,
-    prun p tv (pinit s) sched1 = (p1, t1) /\ prun p tv p1 sched2 = (p2, t2) /\
-    In (ORet a (ROk va)) t1 /\ c_pc (p_c p1) b = PIdle /\ parked_t (p_t p1) b = false /\
-    In (ORet b (ROk vb)) t2 /\ h_height vb < h_height va.
-Proof. exact monotone_refuted. Qed.
 
 (** *** Single flight, for every schedule of the thread machine (the single flight
     does not depend on how setLocalHead is split): underlying getter Head calls never
@@ -253,12 +238,14 @@ Example ex_history :
      SvHead (HIn 5 GFail ([], false) (TOk None) ([], false))])) = [5; 5; 9; 9].
 Proof. vm_compute. reflexivity. Qed.
 
-(* finding F19, and its end: after the late pending.Add the local head is 19; one run of sync() restores 20 *)
-Example ex_f19_recovers :
-  let '(p1, _) := prun rf_p rf_tv (pinit rf_s) (rf_sched1 ++ [PGossipB (TOk None)]) in
-  let '(p2, _) := prun rf_p rf_tv p1 [PEv CSyncDone] in
-  local_head (c_s (p_c p1)) = Some (rf_h 19) /\ local_head (c_s (p_c p2)) = Some (rf_h 20).
-Proof. vm_compute. split; reflexivity. Qed.
+(* the schedule of the former finding F19 (a gossip head parked inside setLocalHead): the late
+   pending.Add(19) no longer shows: the local head stays 20 and caller 3 returns 20 *)
+Example ex_f19_fixed :
+  let '(p1, t1) := prun rf_p rf_tv (pinit rf_s) rf_sched1 in
+  let '(p2, t2) := prun rf_p rf_tv p1 rf_sched2 in
+  In (ORet 2 (ROk (rf_h 20))) t1 /\ s_pend (c_s (p_c p2)) = Some (rf_h 19) /\
+  local_head (c_s (p_c p2)) = Some (rf_h 20) /\ In (ORet 3 (ROk (rf_h 20))) t2.
+Proof. vm_compute. auto 12. Qed.
 
 Print Assumptions C19_monotone_seq.
 Print Assumptions C19_recent_no_traffic.
@@ -271,9 +258,8 @@ Print Assumptions C19_init_ok_only_if_fresh.
 Print Assumptions C19_init_empty_adopts_fresh.
 Print Assumptions C19_reinit_adopts_fresh.
 Print Assumptions C19_reinit_unverified_returns_expired.
-Print Assumptions C19_monotone_partial.
+Print Assumptions C19_monotone.
 Print Assumptions C19_atomic_schedules_are_crun.
-Print Assumptions C19_monotone_refuted.
 Print Assumptions C19_singleflight_one_call_at_a_time.
 Print Assumptions C19_singleflight_shared_result.
 Print Assumptions C19_singleflight_n_callers_one_call.
